@@ -512,8 +512,8 @@ def write_evidence(prop, tier, seed, harnesses, verdicts, states, wall, notes,
         total += v.get("checks_total", 0)
         success += v.get("checks_success", 0) + v.get("checks_unreachable", 0)
         sat = [c for c in v.get("covers", []) if c["status"] == "SATISFIED"]
-        if st == "pass" and sat:
-            nontrivial += 1
+        if st == "pass":
+            nontrivial += len({c["desc"] for c in sat})
         cs = v.get("cbmc_stats", {}) or {}
         solver_s += float(cs.get("runtime_decision_procedure_s") or 0)
         symex_s += float(cs.get("runtime_symex_s") or 0)
@@ -546,8 +546,9 @@ def write_evidence(prop, tier, seed, harnesses, verdicts, states, wall, notes,
             "rule": ("bounded symbolic execution of the real functions (Kani 0.68 -> CBMC 6.11 -> CaDiCaL); "
                      "evaluations = CBMC verification conditions generated for the selected harnesses on this run "
                      "(each decided for ALL values of the symbolic inputs within the harness bounds); "
-                     "distinct_nontrivial = harnesses that were decided as holding AND whose kani::cover! "
-                     "reachability witnesses were all satisfied (non-vacuous)"),
+                     "distinct_nontrivial = number of distinct kani::cover! reachability witnesses (named interesting regions "
+                     "of the input space, e.g. 'window starts after a multi-byte character') that the solver showed SATISFIABLE "
+                     "inside harnesses decided as holding - a harness with an unsatisfied witness is reported inconclusive"),
             "samples": per,
             "harnesses_selected": len(harnesses), "harnesses_decided": decided,
             "obligations": total, "discharged": success,
